@@ -1,2 +1,4 @@
 """Import every rule module so that the rules register themselves."""
 from . import rules_p  # noqa: F401
+from . import rules_d  # noqa: F401
+from . import rules_x  # noqa: F401
